@@ -47,7 +47,24 @@ def correspond(pid, fam, cases, workdir, profiles=("debug", "release")):
     else:
         terms = [fam.coq_term(c) for c in cases]
     model = coq_eval(fam.PREAMBLE, fam.RUNNER, terms, workdir, fam.NAME, shard=getattr(fam, "SHARD", 250))
+    if hasattr(fam, "coq_term_with_obs") and getattr(fam, "PER_PROFILE_MODEL", False):
+        # the model's inputs include values read off the run (wall clock, filesystem): one evaluation per profile
+        model = PerProfile(model, {profiles[0]: model})
+        for prof in profiles[1:]:
+            terms = [fam.coq_term_with_obs(c, impl[prof][i]) for i, c in enumerate(cases)]
+            model.by[prof] = coq_eval(fam.PREAMBLE, fam.RUNNER, terms, workdir, fam.NAME + "_" + prof, shard=getattr(fam, "SHARD", 250))
     return impl, model
+
+
+class PerProfile(list):
+    """A model result list (first profile's) that also carries one result list per profile."""
+
+    def __init__(self, first, by):
+        super().__init__(first)
+        self.by = by
+
+    def of(self, prof):
+        return self.by.get(prof, self)
 
 
 def diff_cases(pid, fam, cases, impl, model):
@@ -63,10 +80,12 @@ def diff_cases(pid, fam, cases, impl, model):
             view_i = view_m = (lambda o: o)
         pm = view_m(project(model[i], idx))
         for prof, obs in impl.items():
+            mod_i = model.of(prof)[i] if isinstance(model, PerProfile) else model[i]
+            pm = view_m(project(mod_i, idx))
             pi = view_i(project(obs[i], idx))
-            extra = fam.cross_checks(pid, c, obs[i], model[i]) if hasattr(fam, "cross_checks") else None
+            extra = fam.cross_checks(pid, c, obs[i], mod_i) if hasattr(fam, "cross_checks") else None
             if pi != pm or extra:
-                out.append({"index": i, "case": c, "profile": prof, "impl": obs[i], "model": model[i],
+                out.append({"index": i, "case": c, "profile": prof, "impl": obs[i], "model": mod_i,
                             "binding_fields": idx, "predicate_failed": extra})
                 break
     return out
